@@ -1,5 +1,7 @@
 import ZipVerif.Model.Align
 import ZipVerif.Model.Writer
+import ZipVerif.Model.Aes
+import ZipVerif.Model.Records
 /-
 Bridges between pairs of hand-written models of the SAME Rust function.
 
@@ -7,6 +9,10 @@ Bridges between pairs of hand-written models of the SAME Rust function.
   fuel ⇒ `panic`) and `Model.validateExtraData` (Model/Writer.lean; fuel = length + 1, out of fuel ⇒ `ok`),
   the one `Tie.Records.tie_validate_extra_data` ties to the translated source.  They agree on every input
   (`validate_bridge`), so the tie reaches the C17 theorems.
+* `parse_extra_field` (read.rs): `Model.Aes.parseExtraLoop` (C16's theorems: a cursor with a pending skip over
+  the six fields the function touches) and `Model.parseExtraField` (Model/Records.lean, the whole record), the one
+  `Tie.Parsers.tie_parse_extra_field` ties to the translated source.  `parseExtra_bridge`: run on the view of a
+  record, the former returns the outcome and the view of the record the latter returns.
 -/
 
 namespace ZipVerif.Lemmas.ExtraBridge
@@ -97,5 +103,421 @@ theorem validate_bridge_ok (f : FileData) :
     constructor
     · intro h; cases h
     · intro h; cases h
+
+/-! ### `parse_extra_field`: the C16 model against the reader model -/
+
+set_option linter.unusedSimpArgs false
+
+def methodView : Model.Method → Aes.Method
+  | .stored => .stored | .deflated => .deflated | .bzip2 => .bzip2 | .aes => .aes | .zstd => .zstd
+  | .unsupported v => .unsupported v
+
+def modeView : Model.AesMode → Aes.AesMode
+  | .aes128 => .aes128 | .aes192 => .aes192 | .aes256 => .aes256
+
+def verView : Model.AesVendorVersion → Aes.VendorVersion
+  | .ae1 => .ae1 | .ae2 => .ae2
+
+/-- The part of the reader model's `FileData` that the C16 model's `ExtraSt` keeps. -/
+def extraView (f : FileData) : Aes.ExtraSt :=
+  { uncompressedSize := f.uncompressedSize, compressedSize := f.compressedSize, headerStart := f.headerStart,
+    largeFile := f.largeFile, aesMode := f.aesMode.map (fun mv => (modeView mv.1, verView mv.2)),
+    method := methodView f.method }
+
+theorem methodView_fromU16 (v : UInt16) : methodView (Model.Method.fromU16 v) = Aes.Method.fromU16 v := by
+  unfold Model.Method.fromU16 Aes.Method.fromU16
+  by_cases h0 : v = 0
+  · subst h0; rfl
+  by_cases h8 : v = 8
+  · subst h8; rfl
+  by_cases h12 : v = 12
+  · subst h12; rfl
+  by_cases h93 : v = 93
+  · subst h93; rfl
+  by_cases h99 : v = 99
+  · subst h99; rfl
+  simp [h0, h8, h12, h93, h99, methodView]
+
+theorem loop_skip : ∀ (s : Nat) (l : Bytes) (st : Aes.ExtraSt),
+    Aes.parseExtraLoop s l st = Aes.parseExtraLoop 0 (l.drop s) st := by
+  intro s
+  induction s with
+  | zero => intro l st; rfl
+  | succ s ih =>
+    intro l st
+    cases l with
+    | nil => simp [Aes.parseExtraLoop]
+    | cons x t => simpa [Aes.parseExtraLoop] using ih t st
+
+theorem rd64_some {l r : Bytes} {v : UInt64} (h : rd64 l = some (v, r)) : r = l.drop 8 := by
+  unfold rd64 at h
+  split at h
+  · injection h with h; injection h with _ h; subst h; rfl
+  · cases h
+
+
+/-- The 0x0001 arm of `Model.parseExtraField` with the recursive call replaced by its arguments
+(a syntactic copy: `records_zip64`). -/
+def zip64Chain (len : UInt16) (r2 : Bytes) (f : FileData) : (FileData × ZErr) ⊕ (FileData × Bytes) :=
+  match takeU64If (f.uncompressedSize == Model.ZIP64_BYTES_THR) r2 with
+  | none => .inl ({ f with largeFile := true }, .io .unexpectedEof)
+  | some (u, r3) =>
+    let f1 := match u with
+      | some v => { f with largeFile := true, uncompressedSize := v }
+      | none => f
+    match takeU64If (f1.compressedSize == Model.ZIP64_BYTES_THR) r3 with
+    | none => .inl ({ f1 with largeFile := true }, .io .unexpectedEof)
+    | some (c, r4) =>
+      let f2 := match c with
+        | some v => { f1 with largeFile := true, compressedSize := v }
+        | none => f1
+      match takeU64If (f2.headerStart == Model.ZIP64_BYTES_THR) r4 with
+      | none => .inl (f2, .io .unexpectedEof)
+      | some (h, r5) =>
+        let f3 := match h with
+          | some v => { f2 with headerStart := v }
+          | none => f2
+        let used := (if u.isSome then 8 else 0) + (if c.isSome then 8 else 0) +
+          (if h.isSome then 8 else 0)
+        let lenLeft : Int := (len.toNat : Int) - used
+        .inr (f3, if lenLeft > 0 then r5.drop lenLeft.toNat else r5)
+
+theorem records_zip64 (fuel : Nat) (f : FileData) (a b c d : UInt8) (rest : Bytes) (hk : mk16 a b = 0x0001) :
+    parseExtraField (fuel + 1) f (a :: b :: c :: d :: rest) =
+      match zip64Chain (mk16 c d) rest f with
+      | .inl (g, e) => (g, some e)
+      | .inr (g, r) => parseExtraField fuel g r := by
+  rw [parseExtraField]
+  simp only [List.isEmpty_cons, Bool.false_eq_true, if_false, rd16, hk, beq_self_eq_true, if_true]
+  unfold zip64Chain
+  cases takeU64If (f.uncompressedSize == Model.ZIP64_BYTES_THR) rest with
+  | none => rfl
+  | some x1 =>
+    obtain ⟨u, r3⟩ := x1
+    dsimp only
+    cases takeU64If ((match u with
+      | some v => { f with largeFile := true, uncompressedSize := v }
+      | none => f).compressedSize == Model.ZIP64_BYTES_THR) r3 with
+    | none => rfl
+    | some x2 =>
+      obtain ⟨c', r4⟩ := x2
+      dsimp only
+      cases takeU64If ((match c' with
+        | some v => { (match u with
+            | some v => { f with largeFile := true, uncompressedSize := v }
+            | none => f) with largeFile := true, compressedSize := v }
+        | none => (match u with
+            | some v => { f with largeFile := true, uncompressedSize := v }
+            | none => f)).headerStart == Model.ZIP64_BYTES_THR) r4 with
+      | none => rfl
+      | some x3 =>
+        obtain ⟨h, r5⟩ := x3
+        rfl
+
+
+theorem thr_eq : Aes.ZIP64_BYTES_THR = Model.ZIP64_BYTES_THR := rfl
+
+theorem drop8_drop {l r : Bytes} {v : UInt64} (h : rd64 l = some (v, r)) (n : Nat) :
+    l.drop (8 + n) = r.drop n := by
+  rw [rd64_some h, List.drop_drop]
+
+theorem drop_tail (rest rk : Bytes) (used len : Nat) (hrk : rk = rest.drop used) :
+    rest.drop (used + (len - used)) =
+      if ((len : Int) - (used : Int)) > 0 then rk.drop ((len : Int) - (used : Int)).toNat else rk := by
+  subst hrk
+  by_cases h : len > used
+  · have h1 : ((len : Int) - (used : Int)) > 0 := by omega
+    have h2 : ((len : Int) - (used : Int)).toNat = len - used := by omega
+    rw [if_pos h1, h2, List.drop_drop]
+  · have h1 : ¬ ((len : Int) - (used : Int)) > 0 := by omega
+    have h2 : len - used = 0 := by omega
+    rw [if_neg h1, h2, Nat.add_zero]
+
+/-- The 0x0001 arm of the C16 model against the same arm of the reader model. -/
+theorem aes_zip64 (len : UInt16) (rest : Bytes) (f : FileData) :
+    match zip64Chain len rest f with
+    | .inl (g, e) => Aes.zip64Rec len rest (extraView f) = (.err e, extraView g)
+    | .inr (g, r') => ∃ skip, Aes.zip64Rec len rest (extraView f) = (.ok skip, extraView g) ∧
+        rest.drop skip = r' := by
+  unfold zip64Chain Aes.zip64Rec takeU64If
+  simp only [thr_eq, extraView]
+  by_cases hu : f.uncompressedSize = Model.ZIP64_BYTES_THR
+  · simp only [hu, beq_self_eq_true, if_true]
+    cases h1 : rd64 rest with
+    | none => first | (simp; done) | (simp; exact hu.symm)
+    | some x1 =>
+      obtain ⟨v1, r1⟩ := x1
+      simp only []
+      by_cases hc : f.compressedSize = Model.ZIP64_BYTES_THR
+      · simp only [hc, beq_self_eq_true, if_true]
+        cases h2 : rd64 r1 with
+        | none => first | (simp; done) | (simp; exact hc.symm)
+        | some x2 =>
+          obtain ⟨v2, r2⟩ := x2
+          simp only []
+          by_cases hh : f.headerStart = Model.ZIP64_BYTES_THR
+          · simp only [hh, beq_self_eq_true, if_true]
+            cases h3 : rd64 r2 with
+            | none => first | (simp; done) | (simp; exact hh.symm)
+            | some x3 =>
+              obtain ⟨v3, r3⟩ := x3
+              simp only []
+              refine ⟨_, rfl, ?_⟩
+              have hr : r3 = rest.drop 24 := by rw [rd64_some h3, rd64_some h2, rd64_some h1, List.drop_drop, List.drop_drop]
+              have ht := drop_tail rest r3 24 len.toNat hr
+              simpa using ht
+          · have hh' : (f.headerStart == Model.ZIP64_BYTES_THR) = false := beq_false_of_ne hh
+            simp only [hh, hh', Bool.false_eq_true, if_false]
+            refine ⟨_, rfl, ?_⟩
+            have hr : r2 = rest.drop 16 := by rw [rd64_some h2, rd64_some h1, List.drop_drop]
+            have ht := drop_tail rest r2 16 len.toNat hr
+            simpa using ht
+      · have hc' : (f.compressedSize == Model.ZIP64_BYTES_THR) = false := beq_false_of_ne hc
+        simp only [hc, hc', Bool.false_eq_true, if_false]
+        by_cases hh : f.headerStart = Model.ZIP64_BYTES_THR
+        · simp only [hh, beq_self_eq_true, if_true]
+          cases h3 : rd64 r1 with
+          | none => first | (simp; done) | (simp; exact hh.symm)
+          | some x3 =>
+            obtain ⟨v3, r3⟩ := x3
+            simp only []
+            refine ⟨_, rfl, ?_⟩
+            have hr : r3 = rest.drop 16 := by rw [rd64_some h3, rd64_some h1, List.drop_drop]
+            have ht := drop_tail rest r3 16 len.toNat hr
+            simpa using ht
+        · have hh' : (f.headerStart == Model.ZIP64_BYTES_THR) = false := beq_false_of_ne hh
+          simp only [hh, hh', Bool.false_eq_true, if_false]
+          refine ⟨_, rfl, ?_⟩
+          have hr : r1 = rest.drop 8 := by rw [rd64_some h1]
+          have ht := drop_tail rest r1 8 len.toNat hr
+          simpa using ht
+  · have hu' : (f.uncompressedSize == Model.ZIP64_BYTES_THR) = false := beq_false_of_ne hu
+    simp only [hu, hu', Bool.false_eq_true, if_false]
+    by_cases hc : f.compressedSize = Model.ZIP64_BYTES_THR
+    · simp only [hc, beq_self_eq_true, if_true]
+      cases h2 : rd64 rest with
+      | none => first | (simp; done) | (simp; exact hc.symm)
+      | some x2 =>
+        obtain ⟨v2, r2⟩ := x2
+        simp only []
+        by_cases hh : f.headerStart = Model.ZIP64_BYTES_THR
+        · simp only [hh, beq_self_eq_true, if_true]
+          cases h3 : rd64 r2 with
+          | none => first | (simp; done) | (simp; exact hh.symm)
+          | some x3 =>
+            obtain ⟨v3, r3⟩ := x3
+            simp only []
+            refine ⟨_, rfl, ?_⟩
+            have hr : r3 = rest.drop 16 := by rw [rd64_some h3, rd64_some h2, List.drop_drop]
+            have ht := drop_tail rest r3 16 len.toNat hr
+            simpa using ht
+        · have hh' : (f.headerStart == Model.ZIP64_BYTES_THR) = false := beq_false_of_ne hh
+          simp only [hh, hh', Bool.false_eq_true, if_false]
+          refine ⟨_, rfl, ?_⟩
+          have hr : r2 = rest.drop 8 := by rw [rd64_some h2]
+          have ht := drop_tail rest r2 8 len.toNat hr
+          simpa using ht
+    · have hc' : (f.compressedSize == Model.ZIP64_BYTES_THR) = false := beq_false_of_ne hc
+      simp only [hc, hc', Bool.false_eq_true, if_false]
+      by_cases hh : f.headerStart = Model.ZIP64_BYTES_THR
+      · simp only [hh, beq_self_eq_true, if_true]
+        cases h3 : rd64 rest with
+        | none => first | (simp; done) | (simp; exact hh.symm)
+        | some x3 =>
+          obtain ⟨v3, r3⟩ := x3
+          simp only []
+          refine ⟨_, rfl, ?_⟩
+          have hr : r3 = rest.drop 8 := by rw [rd64_some h3]
+          have ht := drop_tail rest r3 8 len.toNat hr
+          simpa using ht
+      · have hh' : (f.headerStart == Model.ZIP64_BYTES_THR) = false := beq_false_of_ne hh
+        simp only [hh, hh', Bool.false_eq_true, if_false]
+        refine ⟨_, rfl, ?_⟩
+        have hr : rest = rest.drop 0 := rfl
+        have ht := drop_tail rest rest 0 len.toNat hr
+        simpa using ht
+
+
+def outOf : Option ZErr → Out Unit
+  | none => .ok ()
+  | some e => .err e
+
+theorem zip64Chain_len {len : UInt16} {rest : Bytes} {f g : FileData} {r' : Bytes}
+    (h : zip64Chain len rest f = .inr (g, r')) : r'.length ≤ rest.length := by
+  have := aes_zip64 len rest f
+  rw [h] at this
+  obtain ⟨skip, _, hd⟩ := this
+  rw [← hd, List.length_drop]
+  omega
+
+theorem aes_ok_step {fuel : Nat}
+    (ih : ∀ (f : FileData) (extra : Bytes), extra.length < fuel →
+      Aes.parseExtraLoop 0 extra (extraView f) =
+        (outOf (parseExtraField fuel f extra).2, extraView (parseExtraField fuel f extra).1))
+    (f : FileData) (am : Model.AesMode) (vv : Model.AesVendorVersion) (cm : UInt16)
+    (v0 v1 i0 i1 m c0 c1 : UInt8) (t : Bytes) (hl : t.length < fuel) :
+    Aes.parseExtraLoop 14 (v0 :: v1 :: i0 :: i1 :: m :: c0 :: c1 :: t)
+        { uncompressedSize := (extraView f).uncompressedSize, compressedSize := (extraView f).compressedSize,
+          headerStart := (extraView f).headerStart, largeFile := (extraView f).largeFile,
+          aesMode := some (modeView am, verView vv), method := Aes.Method.fromU16 cm } =
+      (outOf (parseExtraField fuel { f with method := Model.Method.fromU16 cm, aesMode := some (am, vv) }
+          (List.drop 7 t)).2,
+       extraView (parseExtraField fuel { f with method := Model.Method.fromU16 cm, aesMode := some (am, vv) }
+          (List.drop 7 t)).1) := by
+  rw [loop_skip]
+  have hd : List.drop 14 (v0 :: v1 :: i0 :: i1 :: m :: c0 :: c1 :: t) = List.drop 7 t := rfl
+  rw [hd, ← methodView_fromU16]
+  exact ih { f with method := Model.Method.fromU16 cm, aesMode := some (am, vv) } (List.drop 7 t)
+    (by rw [List.length_drop]; omega)
+
+/-- **The two models of `parse_extra_field` agree**: the C16 model (`Model.Aes.parseExtraLoop`, a cursor
+with a pending skip) run on the view of a record returns the outcome and the view of the record that the
+reader model (`Model.parseExtraField`, the one tied to the source by `Tie.Parsers.tie_parse_extra_field`)
+returns, for every record, every extra field and every adequate fuel. -/
+theorem parseExtra_bridge : ∀ (fuel : Nat) (f : FileData) (extra : Bytes), extra.length < fuel →
+    Aes.parseExtraLoop 0 extra (extraView f) =
+      (outOf (parseExtraField fuel f extra).2, extraView (parseExtraField fuel f extra).1) := by
+  intro fuel
+  induction fuel with
+  | zero => intro f extra h; omega
+  | succ fuel ih =>
+    intro f extra hlen
+    match extra, hlen with
+    | [], _ => simp [Aes.parseExtraLoop, parseExtraField, outOf]
+    | [_], _ => simp [Aes.parseExtraLoop, parseExtraField, rd16, outOf]
+    | [_, _], _ => simp [Aes.parseExtraLoop, parseExtraField, rd16, outOf]
+    | [_, _, _], _ => simp [Aes.parseExtraLoop, parseExtraField, rd16, outOf]
+    | a :: b :: c :: d :: rest, hlen =>
+      have hrest : rest.length < fuel := by simp only [List.length_cons] at hlen; omega
+      rw [Aes.parseExtraLoop]
+      by_cases hk1 : mk16 a b = 0x0001
+      · rw [records_zip64 fuel f a b c d rest hk1]
+        simp only [hk1, if_true]
+        have hz := aes_zip64 (mk16 c d) rest f
+        cases hzc : zip64Chain (mk16 c d) rest f with
+        | inl ge =>
+          obtain ⟨g, e⟩ := ge
+          rw [hzc] at hz
+          simp only [] at hz ⊢
+          rw [hz]
+          rfl
+        | inr gr =>
+          obtain ⟨g, r'⟩ := gr
+          have hl := zip64Chain_len hzc
+          rw [hzc] at hz
+          simp only [] at hz ⊢
+          obtain ⟨skip, hs, hd⟩ := hz
+          rw [hs]
+          simp only []
+          rw [loop_skip, hd]
+          exact ih g r' (by omega)
+      · have hk1' : (mk16 a b == 0x0001) = false := beq_false_of_ne hk1
+        rw [parseExtraField]
+        simp only [List.isEmpty_cons, Bool.false_eq_true, if_false, rd16, hk1, hk1']
+        by_cases hk2 : mk16 a b = 0x9901
+        · simp only [hk2, beq_self_eq_true, if_true]
+          by_cases h7 : mk16 c d = 7
+          · have h7' : (mk16 c d != 7) = false := by rw [h7]; rfl
+            simp only [h7', Bool.false_eq_true, if_false]
+            rcases rest with _ | ⟨v0, _ | ⟨v1, _ | ⟨i0, _ | ⟨i1, _ | ⟨m, _ | ⟨c0, _ | ⟨c1, t⟩⟩⟩⟩⟩⟩⟩
+            · simp [Aes.aesRec, h7, outOf]
+            · simp [Aes.aesRec, h7, outOf]
+            · simp [Aes.aesRec, h7, outOf]
+            · simp [Aes.aesRec, h7, outOf]
+            · simp [Aes.aesRec, h7, outOf]
+            · simp [Aes.aesRec, h7, outOf]
+            · simp [Aes.aesRec, h7, outOf]
+            · simp only [Aes.aesRec, h7, ne_eq, not_true_eq_false, if_false]
+              by_cases hid : mk16 i0 i1 = 0x4541
+              · have hid' : (mk16 i0 i1 != 0x4541) = false := by rw [hid]; rfl
+                simp only [hid, hid', not_true_eq_false, Bool.false_eq_true, if_false]
+                by_cases hv1 : mk16 v0 v1 = 1
+                · simp only [hv1, beq_self_eq_true, if_true]
+                  have ht : t.length < fuel := by simp only [List.length_cons] at hrest; omega
+                  by_cases hm1 : m = 1
+                  · simp only [hm1, beq_self_eq_true, if_true, not_true_eq_false, false_and]
+                    exact aes_ok_step ih f .aes128 .ae1 _ _ _ _ _ _ _ _ t ht
+                  · have hm1' : (m == 1) = false := beq_false_of_ne hm1
+                    by_cases hm2 : m = 2
+                    · simp only [hm1, hm1', hm2, beq_self_eq_true, if_true, Bool.false_eq_true, if_false, not_true_eq_false, false_and]
+                      exact aes_ok_step ih f .aes192 .ae1 _ _ _ _ _ _ _ _ t ht
+                    · have hm2' : (m == 2) = false := beq_false_of_ne hm2
+                      by_cases hm3 : m = 3
+                      · simp only [hm1, hm1', hm2, hm2', hm3, beq_self_eq_true, if_true, Bool.false_eq_true, if_false, not_true_eq_false, false_and]
+                        exact aes_ok_step ih f .aes256 .ae1 _ _ _ _ _ _ _ _ t ht
+                      · have hm3' : (m == 3) = false := beq_false_of_ne hm3
+                        simp [hm1, hm1', hm2, hm2', hm3, hm3', outOf]
+                · have hv1' : (mk16 v0 v1 == 1) = false := beq_false_of_ne hv1
+                  by_cases hv2 : mk16 v0 v1 = 2
+                  · simp only [hv1', hv2, beq_self_eq_true, if_true, Bool.false_eq_true, if_false]
+                    have ht : t.length < fuel := by simp only [List.length_cons] at hrest; omega
+                    by_cases hm1 : m = 1
+                    · simp only [hm1, beq_self_eq_true, if_true, not_true_eq_false, and_false]
+                      exact aes_ok_step ih f .aes128 .ae2 _ _ _ _ _ _ _ _ t ht
+                    · have hm1' : (m == 1) = false := beq_false_of_ne hm1
+                      by_cases hm2 : m = 2
+                      · simp only [hm1, hm1', hm2, beq_self_eq_true, if_true, Bool.false_eq_true, if_false, not_true_eq_false, and_false]
+                        exact aes_ok_step ih f .aes192 .ae2 _ _ _ _ _ _ _ _ t ht
+                      · have hm2' : (m == 2) = false := beq_false_of_ne hm2
+                        by_cases hm3 : m = 3
+                        · simp only [hm1, hm1', hm2, hm2', hm3, beq_self_eq_true, if_true, Bool.false_eq_true, if_false, not_true_eq_false, and_false]
+                          exact aes_ok_step ih f .aes256 .ae2 _ _ _ _ _ _ _ _ t ht
+                        · have hm3' : (m == 3) = false := beq_false_of_ne hm3
+                          simp [hm1, hm1', hm2, hm2', hm3, hm3', outOf]
+                  · have hv2' : (mk16 v0 v1 == 2) = false := beq_false_of_ne hv2
+                    simp [hv1, hv1', hv2, hv2', outOf]
+              · have hid' : (mk16 i0 i1 != 0x4541) = true := bne_iff_ne.mpr hid
+                simp [hid, hid', outOf]
+          · have h7' : (mk16 c d != 7) = true := bne_iff_ne.mpr h7
+            simp [Aes.aesRec, h7, h7', outOf]
+        · have hk2' : (mk16 a b == 0x9901) = false := beq_false_of_ne hk2
+          simp only [hk2, hk2', Bool.false_eq_true, if_false]
+          rw [loop_skip]
+          exact ih f _ (by rw [List.length_drop]; omega)
+
+
+theorem methodView_aes_iff (m : Model.Method) : methodView m = Aes.Method.aes ↔ m = Model.Method.aes := by
+  cases m <;> simp [methodView]
+
+/-- The tail of `central_header_to_zip_file` in the reader model (`Model.centralHeaderInner`): I/O errors of
+the extra-field parser are swallowed, other errors returned, method 99 needs the AES record — as an outcome
+over the view. -/
+def readerTail (f : FileData) (extra : Bytes) : Out Aes.ExtraSt :=
+  let fin (g : FileData) : Out Aes.ExtraSt :=
+    if g.method == Model.Method.aes && g.aesMode.isNone then .err .invalidArchive else .ok (extraView g)
+  match parseExtraField (extra.length + 1) f extra with
+  | (g, none) => fin g
+  | (g, some (.io _)) => fin g
+  | (_, some e) => .err e
+
+/-- **`Model.Aes.parseEntryExtra` is the reader model's tail of `central_header_to_zip_file`.** -/
+theorem parseEntryExtra_bridge (f : FileData) (extra : Bytes) :
+    Aes.parseEntryExtra (extraView f) extra = readerTail f extra := by
+  unfold Aes.parseEntryExtra readerTail
+  rw [parseExtra_bridge (extra.length + 1) f extra (Nat.lt_succ_self _)]
+  have hfin : ∀ g : FileData,
+      (if (extraView g).method = Aes.Method.aes ∧ (extraView g).aesMode.isNone = true then
+          (Out.err ZErr.invalidArchive : Out Aes.ExtraSt) else .ok (extraView g)) =
+      (if (g.method == Model.Method.aes && g.aesMode.isNone) = true then .err .invalidArchive
+        else .ok (extraView g)) := by
+    intro g
+    have h1 : (extraView g).method = Aes.Method.aes ↔ g.method = Model.Method.aes := methodView_aes_iff g.method
+    have h2 : (extraView g).aesMode.isNone = g.aesMode.isNone := by
+      simp only [extraView]; cases g.aesMode <;> rfl
+    by_cases hm : g.method = Model.Method.aes
+    · have hm' : (g.method == Model.Method.aes) = true := by rw [hm]; rfl
+      rw [h2]
+      simp only [h1.mpr hm, hm', true_and, Bool.true_and]
+    · have hm' : (g.method == Model.Method.aes) = false := beq_false_of_ne hm
+      have : ¬ (extraView g).method = Aes.Method.aes := fun h => hm (h1.mp h)
+      simp only [this, hm', false_and, Bool.false_and, Bool.false_eq_true, if_false]
+  generalize parseExtraField (extra.length + 1) f extra = r
+  obtain ⟨g, oe⟩ := r
+  cases oe with
+  | none => exact hfin g
+  | some e =>
+    cases e with
+    | io k => exact hfin g
+    | _ => rfl
 
 end ZipVerif.Lemmas.ExtraBridge
